@@ -61,7 +61,7 @@ pub fn replay_file(path: &std::path::Path) -> i32 {
         "c17-schedule" => verdict("C17", path, c17::replay(case)),
         "c04-case" => verdict("C04", path, c04::replay(case)),
         "c18-map" => verdict("C18", path, c18::replay(case)),
-        "c05-case" => verdict("C05", path, c05::replay(case)),
+        "c05-case" | "c05-large" => verdict("C05", path, c05::replay(case)),
         k if k.starts_with("c03-") => match c03::replay(case) {
             Ok(()) => {
                 println!("replay: no violation");
